@@ -43,13 +43,20 @@ Definition is_witness_program (s : bytes) : bool :=
   | _ => false
   end.
 
+(** [output.get(vout)] with a binary index (vout is any u32) *)
+Fixpoint nth_N {A} (l : list A) (n : N) : option A :=
+  match l with
+  | [] => None
+  | x :: r => if n =? 0 then Some x else nth_N r (n - 1)
+  end.
+
 (** one input of StreamedPSBT::consensus_decode_from_finite_reader *)
 Definition post_input (t : txin) (i : pinput) : option (pinput * bool) :=
   match i_nwu i with
   | None => Some (i, false)
   | Some ptx =>
       if negb (bytes_eqb (pt_txid ptx) (ti_txid t)) then None
-      else match nth_error (pt_outs ptx) (N.to_nat (ti_vout t)) with
+      else match nth_N (pt_outs ptx) (ti_vout t) with
            | None => None
            | Some o =>
                let flag := is_witness_program (o_spk o) in
@@ -91,12 +98,12 @@ Definition streamed_post (p : psbt) : option (psbt * list bool) :=
     and whether it is known to be segwit *)
 Definition ref_prevout (t : txin) (i : pinput) : option txout :=
   match i_nwu i with
-  | Some ptx => nth_error (pt_outs ptx) (N.to_nat (ti_vout t))
+  | Some ptx => nth_N (pt_outs ptx) (ti_vout t)
   | None => i_wu i
   end.
 Definition ref_flag (t : txin) (i : pinput) : bool :=
   match i_nwu i with
-  | Some ptx => match nth_error (pt_outs ptx) (N.to_nat (ti_vout t)) with
+  | Some ptx => match nth_N (pt_outs ptx) (ti_vout t) with
                 | Some o => is_witness_program (o_spk o)
                 | None => false
                 end
@@ -113,7 +120,7 @@ Definition input_consistent (t : txin) (i : pinput) : bool :=
   | None => true
   | Some ptx =>
       bytes_eqb (pt_txid ptx) (ti_txid t) &&
-      match nth_error (pt_outs ptx) (N.to_nat (ti_vout t)) with
+      match nth_N (pt_outs ptx) (ti_vout t) with
       | None => false
       | Some o => match i_wu i with Some w => txout_eqb w o | None => true end
       end
